@@ -76,6 +76,55 @@ fn span<E>(s: &[E]) -> (usize, usize) {
 
 // ------------------------------------------------------------------------------------------ C02 gate
 
+/// The same gate with the source being a WHOLE heap allocation of exactly `l` elements (no canaries around it): a view
+/// that is created longer than the source - even transiently, even if never read - then reaches outside the allocation,
+/// which is what the memory-monitor substrates (Miri, AddressSanitizer) can see. Value oracle: accepted iff l == N, at the
+/// source's address.
+fn gate_tight<E: Elem, N: ArrayLength>(entry: u8, l: usize) -> Result<CaseInfo, String> {
+    let n = N::USIZE;
+    let mut v: Vec<E> = Vec::with_capacity(l);
+    for _ in 0..l {
+        v.push(E::make());
+    }
+    let mut b: Box<[E]> = v.into_boxed_slice();
+    let want = (b.as_ptr() as usize, n);
+    let got: Option<(usize, usize)> = match entry {
+        0 => match catch(|| span(GA::<E, N>::from_slice(&b[..]).as_slice())) {
+            Ok(sp) => Some(sp),
+            Err(PanicKind::Other(_)) => None,
+            Err(e) => return Err(format!("unexpected panic {e:?}")),
+        },
+        1 => GA::<E, N>::try_from_slice(&b[..]).ok().map(|a| span(a.as_slice())),
+        2 => <&GA<E, N>>::try_from(&b[..]).ok().map(|a| span(a.as_slice())),
+        3 => match catch(AssertUnwindSafe(|| span(GA::<E, N>::from_mut_slice(&mut b[..]).as_mut_slice()))) {
+            Ok(sp) => Some(sp),
+            Err(PanicKind::Other(_)) => None,
+            Err(e) => return Err(format!("unexpected panic {e:?}")),
+        },
+        4 => GA::<E, N>::try_from_mut_slice(&mut b[..]).ok().map(|a| span(a.as_mut_slice())),
+        _ => <&mut GA<E, N>>::try_from(&mut b[..]).ok().map(|a| span(a.as_mut_slice())),
+    };
+    match (got, l == n) {
+        (Some(sp), true) if sp == want => {}
+        (Some(sp), true) => return Err(format!("accepted view is (addr {:#x}, len {}), the source is (addr {:#x}, len {})", sp.0, sp.1, want.0, want.1)),
+        (Some(sp), false) => return Err(format!("a slice of length {l} was accepted as an array of N = {n} (view len {})", sp.1)),
+        (None, true) => return Err(format!("a slice of exactly N = {n} elements was rejected")),
+        (None, false) => {}
+    }
+    if l == n && n > 0 && entry >= 3 && !E::ZST {
+        // a write through the accepted mutable view, then a read through the source
+        let fresh = E::make();
+        let fid = fresh.ident();
+        GA::<E, N>::try_from_mut_slice(&mut b[..]).map_err(|_| "rejected on second call")?[n - 1] = fresh;
+        if b[n - 1].ident() != fid {
+            return Err("a write through the mutable view did not land in the source".into());
+        }
+    }
+    drop(b);
+    ledger::check_exact(&[], 0)?;
+    Ok(CaseInfo::new(n > 0 || l > 0, if l == n { "tight-accepted" } else { "tight-rejected" }))
+}
+
 /// entry: 0 from_slice 1 try_from_slice 2 TryFrom<&[T]> 3 from_mut_slice 4 try_from_mut_slice 5 TryFrom<&mut [T]>
 fn gate<E: Elem, N: ArrayLength>(entry: u8, l: usize) -> Result<CaseInfo, String> {
     let n = N::USIZE;
@@ -361,29 +410,41 @@ macro_rules! for_es {
     ([$($e:ty),*], $E:ident => $body:block) => { $( { type $E = $e; $body } )* };
 }
 
+// NOTE: the per-(E, K) case lists are generic functions and the macros expand to plain calls: thousands of closures expanded
+// inline into one function make MIR building / borrow checking take most of a minute, which every Miri invocation pays again.
+fn c02_cases<E: Elem, const K: usize>(ctx: &mut Ctx)
+where
+    Const<K>: IntoArrayLength,
+{
+    type N<const K: usize> = ConstArrayLength<K>;
+    let ls: Vec<usize> = if K <= 13 { (0..=K + 2).collect() } else { let mut v = vec![0, 1, K - 1, K, K + 1, 2 * K]; v.sort(); v.dedup(); v };
+    for entry in 0u8..6 {
+        let en = ["from_slice", "try_from_slice", "TryFrom<&[T]>", "from_mut_slice", "try_from_mut_slice", "TryFrom<&mut [T]>"][entry as usize];
+        for &l in &ls {
+            ctx.case(&format!("C02;gate;{en};N={K};L={l};E={}", E::NAME), || gate::<E, N<K>>(entry, l));
+            ctx.case(&format!("C02;gate-tight;{en};N={K};L={l};E={}", E::NAME), || gate_tight::<E, N<K>>(entry, l));
+        }
+    }
+    ctx.case(&format!("C02;views;N={K};E={}", E::NAME), || view_matrix::<E, K>());
+    if K <= 33 || K == 100 || K == 1024 {
+        ctx.case(&format!("C02;by-value;N={K};E={}", E::NAME), || by_value::<E, K>());
+    }
+}
+
 fn run_c02(ctx: &mut Ctx) {
     for_ks!([0, 1, 2, 3, 4, 5, 6, 7, 8, 9, 10, 11, 12, 13, 15, 16, 17, 31, 32, 33, 64, 100, 255, 256, 1000, 1024], K => {
         for_es!([u8, u64, (), Tr<0>, TrZ, A16, P3, B3, A64, TrA], E => {
-            type N = ConstArrayLength<K>;
-            let ls: Vec<usize> = if K <= 13 { (0..=K + 2).collect() } else { let mut v = vec![0, 1, K - 1, K, K + 1, 2 * K]; v.sort(); v.dedup(); v };
-            for entry in 0u8..6 {
-                let en = ["from_slice", "try_from_slice", "TryFrom<&[T]>", "from_mut_slice", "try_from_mut_slice", "TryFrom<&mut [T]>"][entry as usize];
-                for &l in &ls {
-                    ctx.case(&format!("C02;gate;{en};N={K};L={l};E={}", E::NAME), || gate::<E, N>(entry, l));
-                }
-            }
-            ctx.case(&format!("C02;views;N={K};E={}", E::NAME), || view_matrix::<E, K>());
-            if K <= 33 || K == 100 || K == 1024 {
-                ctx.case(&format!("C02;by-value;N={K};E={}", E::NAME), || by_value::<E, K>());
-            }
+            c02_cases::<E, K>(ctx);
         });
     });
-    tuples!(ctx, Tr<0>);
-    tuples!(ctx, TrZ);
-    tuples!(ctx, u64);
-    tuples!(ctx, Tr<5>);
-    tuples!(ctx, B3);
-    tuples!(ctx, TrA);
+    if maxn() >= 12 {
+        tuples!(ctx, Tr<0>);
+        tuples!(ctx, TrZ);
+        tuples!(ctx, u64);
+        tuples!(ctx, Tr<5>);
+        tuples!(ctx, B3);
+        tuples!(ctx, TrA);
+    }
 }
 
 static MAXN: std::sync::atomic::AtomicUsize = std::sync::atomic::AtomicUsize::new(usize::MAX);
